@@ -408,7 +408,7 @@ inductive SepAll : List PItem → Prop where
   | step (a : List PItem) : a ≠ [] → StepOK a → SepAll (nextTop a) → SepAll a
 
 /-- `include_step_commutes` with the remainder named: it is `nextTop a` -/
-theorem include_step_commutes' (a : List PItem) (r : Reader)
+theorem include_step_commutes_next (a : List PItem) (r : Reader)
     (nodes : List Node) (errs : List ParseErr) (hok : StepOK a) :
     ∃ nodes' errs', ∀ (rest : List PItem) (below : List (List PItem)) (fuel : Nat),
       parseLoop (fuel + 1) (a :: rest :: below) r nodes errs =
@@ -518,7 +518,7 @@ theorem include_is_paste (a : List PItem) (hs : SepAll a) :
     · simp
   | step a hne hok _ ih =>
     intro r nodes errs
-    obtain ⟨n1, e1, hstep⟩ := include_step_commutes' a r nodes errs hok
+    obtain ⟨n1, e1, hstep⟩ := include_step_commutes_next a r nodes errs hok
     obtain ⟨k, n', e', hk⟩ := ih r n1 e1
     refine ⟨k + 1, n', e', fun rest below fuel => ?_⟩
     obtain ⟨h1, h2⟩ := hk rest below fuel
